@@ -205,7 +205,7 @@ def run(ctx):
     for k in range(n):
         body, fix = FIXES[k % len(FIXES)]
         rule = {'id': 'r', 'language': 'JavaScript', 'rule': body, 'fix': fix, 'message': 'm'}
-        text = '\n'.join(rng.choice(SRC_LINES) for _ in range(rng.randint(1, 5))) + '\n'
+        text = rng.choice(['', '', '\n\n', '  \n', '\r\n']) + '\n'.join(rng.choice(SRC_LINES) for _ in range(rng.randint(1, 5))) + '\n'
         cases.append((rule, text))
     libs = lib_edits([{'lang': 'JavaScript', 'source': t, 'rule': json.dumps(r)} for r, t in cases])
     import concurrent.futures as cf
